@@ -198,8 +198,9 @@ def tlsGet (s : St) (t k : Nat) : St × Nat :=
   match (s.th t).locals.lookup k with
   | some id => (s, id)
   | none =>
-    let id := s.tlsInits.getD k 0 + 1
-    (({ s with tlsInits := s.tlsInits.set k id }).modTh t fun h => { h with locals := (k, id) :: h.locals }, id)
+    let id := t * 10 + 1
+    (({ s with tlsInits := s.tlsInits.set k (s.tlsInits.getD k 0 + 1) }).modTh t fun h =>
+      { h with locals := (k, id) :: h.locals }, id)
 
 def perms2 : List Nat → List (List Nat)
   | [a, b] => [[a, b], [b, a]]
@@ -217,13 +218,13 @@ def finish (p : Prog) (s : St) (t : Nat) : List St :=
       match p.cfg.tlsDtor with
       | 1 => { s with atoms := s.atoms.set 0 (10 + k), atomRel := s.atomRel.set 0 VV.zero }
       | 2 =>
-        -- the destructor touches the other key: destroyed (2) if this thread ever had it, else it is
+        -- key 0's destructor touches key 1: destroyed (2) if this thread ever had it, else it is
         -- initialised on the spot (1)
-        let other := 1 - k
-        if live.contains other then { s with tlsObs := s.tlsObs.set k 2 }
+        if k != 0 then s
+        else if live.contains 1 then { s with tlsObs := s.tlsObs.set 0 2 }
         else
-          let (s, _) := tlsGet s t other
-          { s with tlsObs := s.tlsObs.set k 1 }
+          let (s, _) := tlsGet s t 1
+          { s with tlsObs := s.tlsObs.set 0 1 }
       | _ => s) s
     s.modTh t fun h => { h with finished := true }
 
